@@ -529,7 +529,7 @@ Record gx_packet := { gp_src : bytes; gp_dst : bytes; gp_seq : N; gp_data_len : 
 Record gx_genesis := {
   gx_clients : list (bytes * any client_state);
   gx_consensus : list (bytes * list (height * any cons_state));
-  gx_metadata : list (bytes * list (N * N));          (* chain, (key length, value length) *)
+  gx_metadata : list (bytes * list (bytes * N));      (* chain, (key, value length) *)
   gx_relayers : list N;                               (* length of each relayer's address *)
   gx_native : bytes;
   gx_acks : list gx_packet; gx_commitments : list gx_packet; gx_receipts : list gx_packet; gx_seqs : list gx_packet
@@ -592,10 +592,10 @@ Definition gx_validate_gen (relayer_check : bool) (g : gx_genesis) : outcome uni
                  | None => Err
                  | Some ty => all_ok (gx_validate_cons_one ty) (snd cc)
                  end) (gx_consensus g) ;;
-  _ <- all_ok (fun m : bytes * list (N * N) =>
+  _ <- all_ok (fun m : bytes * list (bytes * N) =>
                  match assoc_type types (fst m) with
                  | None => Err
-                 | Some _ => all_ok (fun kv : N * N => if (fst kv =? 0) || (snd kv =? 0) then Err else Ok tt) (snd m)
+                 | Some _ => all_ok (fun kv : bytes * N => if (lenN (fst kv) =? 0) || (snd kv =? 0) then Err else Ok tt) (snd m)
                  end) (gx_metadata g) ;;
   _ <- (if relayer_check && existsb (fun alen => alen =? 0) (gx_relayers g) then Err else Ok tt) ;;
   _ <- (if identifier_ok (gx_native g) then Ok tt else Err) ;;
@@ -609,14 +609,43 @@ Definition gx_validate := gx_validate_gen false.
 (** client.InitGenesis + packet.InitGenesis.  An empty relayer address reaches
     RelayerStore.Set([]byte(""), ...) and the prefix store panics "key is nil". *)
 Definition gx_init (g : gx_genesis) : outcome unit :=
-  _ <- all_ok (fun m : bytes * list (N * N) =>
-                 all_ok (fun kv : N * N => if (fst kv =? 0) || (snd kv =? 0) then Panic else Ok tt) (snd m)) (gx_metadata g) ;;
+  _ <- all_ok (fun m : bytes * list (bytes * N) =>
+                 all_ok (fun kv : bytes * N => if (lenN (fst kv) =? 0) || (snd kv =? 0) then Panic else Ok tt) (snd m)) (gx_metadata g) ;;
   _ <- all_ok (fun c : bytes * any client_state => match snd c with AnyVal _ => Ok tt | _ => Panic end) (gx_clients g) ;;
   _ <- all_ok (fun cc : bytes * list (height * any cons_state) =>
                  all_ok (fun hc : height * any cons_state => match snd hc with AnyVal _ => Ok tt | _ => Panic end) (snd cc)) (gx_consensus g) ;;
   _ <- all_ok (fun alen : N => if alen =? 0 then Panic else Ok tt) (gx_relayers g) ;;
   _ <- all_ok (fun p : gx_packet => if gp_data_len p =? 0 then Panic else Ok tt) (gx_acks g) ;;
   all_ok (fun p : gx_packet => if gp_data_len p =? 0 then Panic else Ok tt) (gx_commitments g).
+
+(** The module state InitGenesis leaves behind, as far as the proposal handlers read it back: per
+    listed client its client state (last entry wins), the consensus states (metadata written under
+    consensus-state keys first - undecodable bytes - then the listed ones) and the metadata keys under
+    the "recentSingers" prefix. *)
+Fixpoint strip_prefix (p s : bytes) : option bytes :=
+  match p, s with
+  | [], _ => Some s
+  | x :: p', y :: s' => if Byte.eqb x y then strip_prefix p' s' else None
+  | _ :: _, [] => None
+  end.
+
+Definition parse_cons_key (k : bytes) : option height :=
+  match strip_prefix (B "consensusStates/") k with
+  | Some r => if lenN r =? 16 then Some (mkH (be_value (firstn 8 r)) (be_value (skipn 8 r))) else None
+  | None => None
+  end.
+
+Definition gx_store (g : gx_genesis) (chain : bytes) : cstore :=
+  let items := flat_map (fun m : bytes * list (bytes * N) => if bytes_eqb (fst m) chain then map fst (snd m) else []) (gx_metadata g) in
+  let signers := fold_left (fun l k => match strip_prefix (B "recentSingers") k with Some suf => sorted_insert suf l | None => l end) items [] in
+  let cons0 := fold_left (fun l k => match parse_cons_key k with Some h => cons_set l h ConsGarbage | None => l end) items [] in
+  let listed := flat_map (fun cc : bytes * list (height * any cons_state) => if bytes_eqb (fst cc) chain then snd cc else []) (gx_consensus g) in
+  let cons1 := fold_left (fun l (hc : height * any cons_state) => match snd hc with AnyVal c => cons_set l (fst hc) c | _ => l end) listed cons0 in
+  let client := fold_left (fun acc (c : bytes * any client_state) =>
+                             if bytes_eqb (fst c) chain then match snd c with AnyVal cs => Some cs | _ => acc end else acc) (gx_clients g) None in
+  {| c_client := client; c_cons := cons1; c_signers := signers |}.
+
+Definition gx_state (g : gx_genesis) : list (bytes * cstore) := map (fun c : bytes * any client_state => (fst c, gx_store g (fst c))) (gx_clients g).
 
 (** ** aggregate *)
 Definition is_hex_digit (b : byte) : bool :=
